@@ -167,7 +167,7 @@ def unit(item):
                 p.add(traces_validated_against_impl=1, transitions=len(h))
             # (i) batched frontier vs solo
             by_hist = {n.hist: n for n in tree.nodes}
-            rew_b = E.rewards_of_leaves(env, tree) if tree.leaves and _reward_ok(env, tree) else None
+            rew_b = E.rewards_of_leaves(env, tree) if tree.leaves and not getattr(spec, 'reward_needs_all_done', False) and _reward_ok(env, tree) else None
             for li, h in enumerate(tree.leaves):
                 if (iid, h) not in ref:
                     continue
